@@ -182,6 +182,12 @@ func coGenBody(rng *rand.Rand, kind int, nExtra int) (typ uint16, body string) {
 			"0200",                                                               // too short for ipv4 -> Data() fails
 			"zz",                                                                 // not hex -> Data() fails
 			"2B00112233",                                                         // unknown family
+			// truncations at and between the field boundaries (Data() must fail cleanly, never panic)
+			"0A00005000000000" + "000000000000000000000000",
+			"0A00005000000000" + "0000000000000000000000000000",
+			"0A00005000000000" + "000000000000000000000000000000",
+			"0A0000500000", "0A00", "020000500102", "02000050", "010000", "0100002F746D702F78", "01", "0", "",
+			"0200005001020304" + "00000000000000" + "0",
 		})}}
 	case coKProctitle:
 		typ = tPROCTITLE
